@@ -3,15 +3,17 @@ CONSTANTS XKinds = {"pdep"}
           YKinds = {"lit","none"}
           Aliases = {"none","pos","neg"}
           Delays = {"none","lit","par","par_lit","par_par2","sum"}
-          Opts = {"base","aliases","rcv","ev"}
+          Opts = {"base","aliases","rcv","ev","eva","evb"}
           Typed = {TRUE,FALSE}
           Strs = {TRUE,FALSE}
           Outs = {TRUE,FALSE}
           SwapDepClasses = FALSE
           ForgetOutputs = FALSE
           DurDepsOffByOne = FALSE
+          TruthyOptions = FALSE
 INIT Init
 NEXT Next
 INVARIANT RoundTrip
 INVARIANT NoMXPickled
+INVARIANT SwitchedIsFresh
 CHECK_DEADLOCK FALSE
